@@ -16,7 +16,7 @@ MCData ==
        \cup {<< <<<<"y", IntV(1)>>>>, <<>>, <<>>, <<>> >>}
   ELSE {Layers(vx, vy) : vx \in {A123, Arr(<<Str("a"), Str("b"), Str("c"), Str("d")>>), Arr(<<>>)}, vy \in {IntV(1), IntV(2)}}
 
-MCCfgs == {[trim |-> "+", suppress |-> TRUE, autoescape |-> FALSE, undef |-> "default"]}
+MCCfgs == {Cfg("+", TRUE, FALSE, "default")}
 
 X == V("x")
 Y == V("y")
@@ -61,4 +61,5 @@ MCPool == CASE Variant = "single" -> Singles
             [] Variant = "pairs" -> PairLoops
             [] Variant = "nest" -> Nests \cup {NOut(P(VP("forloop", "index")))}
 MCPoolAt(i) == MCPool
+MCPartials == <<>>
 =============================================================================
